@@ -542,18 +542,20 @@ pub struct Params {
     pub coupled: bool,
     pub wo: bool,
     pub faults: bool,
+    pub extreme: bool,
 }
 
 impl Params {
     pub fn header(&self) -> String {
         format!(
-            "limit={} resp={} cap={} coupled={} wo={} faults={}",
+            "limit={} resp={} cap={} coupled={} wo={} faults={} extreme={}",
             self.limit.map(|l| l.to_string()).unwrap_or("none".into()),
             self.resp,
             self.cap,
             self.coupled as u8,
             self.wo as u8,
-            self.faults as u8
+            self.faults as u8,
+            self.extreme as u8
         )
     }
     pub fn from_header(h: &str) -> Params {
@@ -565,6 +567,7 @@ impl Params {
             coupled: g("coupled", 1) == 1,
             wo: g("wo", 0) == 1,
             faults: g("faults", 0) == 1,
+            extreme: g("extreme", 0) == 1,
         }
     }
 }
@@ -618,6 +621,12 @@ fn gen_op(rng: &mut Rng, sv: &Server, g: &mut Gen, p: &Params) -> Op {
             let far = ((g.now + rel) / 32_000_000 + 1) * 32_000_000 + (g.nreq % 16) * 2_000_000 + sub;
             let d = if rel == 0 && rng.chance(1, 2) { g.now / 2 } else if rel < 2_000_000 { g.now + rel } else { far };
             g.deadlines.push(d);
+            let d = if p.extreme && rng.chance(1, 3) {
+                g.now + *rng.pick(&[70_000_000_000_000_000u64, 315_360_000_000_000_000, 3_153_600_000_000_000_000]) + g.nreq * 2_000_000
+            } else {
+                d
+            };
+            let id = if p.extreme && rng.chance(1, 4) { u64::MAX - g.nreq } else { id };
             Op::InjectReq { id, d, tid: 200 + g.nreq as u128, span: 8000 + g.nreq, sampled: rng.chance(1, 2), body: 600 + g.nreq }
         }
         1 => {
@@ -705,7 +714,7 @@ pub fn run_script(out: &mut Out, idx: u64, p: &Params, rng: &mut Rng, script: Op
     simt::take_log();
 }
 
-pub fn generate(out: &mut Out, seed: u64, scripts: u64, len: usize, wo: bool, faults: bool) {
+pub fn generate(out: &mut Out, seed: u64, scripts: u64, len: usize, wo: bool, faults: bool, extreme: bool) {
     for idx in 0..scripts {
         let mut rng = Rng::new(seed.wrapping_mul(1_000_003).wrapping_add(idx));
         let p = Params {
@@ -718,6 +727,7 @@ pub fn generate(out: &mut Out, seed: u64, scripts: u64, len: usize, wo: bool, fa
             coupled: rng.chance(2, 3),
             wo,
             faults,
+            extreme,
         };
         run_script(out, idx, &p, &mut rng, None, len);
     }
